@@ -61,8 +61,8 @@ ENCODINGS = [
     ([0, 1, 2], NAN), ([0, 1, 2], NAN), ([2, 0, 1], -1), ([7, 3, 12], NAN),
     ([12, 7, 3], 999), (["b", "a", "c"], None), (["no", "yes", "10"], "zz"),
 ]
-VARIANTS = ["subset", "subset", "permute", "duplicate", "reweight", "move",
-            "fresh", "fresh"]
+VARIANTS = ["reweight", "subset", "permute", "duplicate", "reweight", "move",
+            "fresh", "subset", "fresh"]
 
 coord = st.integers(-400, 400).map(lambda v: v / 100.0)
 lattice = st.integers(-2, 2).map(float)
@@ -147,7 +147,7 @@ def _case(draw):
                           "n_annotators": draw(st.sampled_from([None, A]))}}
 
     # -------------------------------------------------------- labeled rows --
-    n_lab = draw(st.sampled_from([0, 1, 2, 2, 3, 3, 4, 5, 6, 7]))
+    n_lab = draw(st.sampled_from([2, 3, 4, 2, 3, 5, 6, 7, 1, 0]))
     Xl = [draw(row) for _ in range(n_lab)]
     if comp == "ALR":
         yl = []
@@ -188,7 +188,7 @@ def _case(draw):
             return draw(st.lists(any_weight, min_size=A, max_size=A))
         return draw(any_weight)
 
-    n_unl = draw(st.sampled_from([0, 1, 1, 2, 2, 3, 4]))
+    n_unl = draw(st.sampled_from([1, 2, 1, 2, 3, 4, 0]))
     UA = [{"x": draw(row), "w": unl_weight(),
            "pos": draw(st.integers(0, n_lab))} for _ in range(n_unl)]
     variant = draw(st.sampled_from(VARIANTS))
